@@ -34,3 +34,5 @@ def run(ctx):
         foreignread.run(ctx, "C06")
         from .. import handleg       # (round 9) the GENERIC handle machine Sf.HandleG: whole histories on AIFF / CAF / W64 / AVR / IRCAM / PAF / HTK (+ RAW / AU / WAV) byte for byte incl. store dumps
         handleg.run(ctx, "C06", 150 if q else 3000)
+        from .. import seekmatrix    # DETERMINISTIC block-seek matrix: every block codec x container x channel count x (stand in block L; seek into each of L+1..L+3, 2L+1, 2L+2, L, L-1, 0, last; read across its end)
+        seekmatrix.run(ctx, "C06")
